@@ -17,6 +17,7 @@ import (
 	"crypto/x509"
 	"encoding/base64"
 	"encoding/json"
+	"errors"
 	"fmt"
 	"io"
 	"net"
@@ -45,6 +46,8 @@ const (
 	ioTimeout = 20 * time.Second
 	// ResponseHeaderTimeout of the proxy's transport (the "timeout" exchange kind waits for it)
 	headerTimeout = 600 * time.Millisecond
+	// ConnectTimeout of the proxy (an upstream proxy / SOCKS5 server that never answers is given up after it)
+	connectTimeout = 1500 * time.Millisecond
 )
 
 var authHeader = "Proxy-Authorization: Basic " + base64.StdEncoding.EncodeToString([]byte(authUser+":"+authPass)) + "\r\n"
@@ -60,6 +63,8 @@ type xspec struct {
 	ReqChk bool    `json:"req_chunked,omitempty"`
 	Status int     `json:"status,omitempty"` // status: origin status; connect-reject: the upstream proxy's answer
 	End    string  `json:"end,omitempty"`    // how the client ends a tunnel / abort: "close" | "fin" | "rst"
+	Fault  string  `json:"fault,omitempty"`  // dial-then-fail kinds (dialfail.go): what goes wrong after the dial
+	Via    string  `json:"via,omitempty"`    // dial-then-fail kinds: which upstream proxy (hup = http, tup = https, ptup, utup)
 	Inner  []xspec `json:"inner,omitempty"`  // mitm: exchanges inside the TLS session
 }
 
@@ -73,13 +78,18 @@ type roundCase struct {
 	// proxy_handler.go twins; MITM is not supported there) instead of the TCP server.
 	Handler bool       `json:"handler,omitempty"`
 	Conns   []connSpec `json:"conns"`
+
+	// Insecure runs the proxy's TLS client without verification (--insecure): the only configuration
+	// in which a terminate-TLS CONNECT can succeed at all.
+	Insecure bool `json:"insecure,omitempty"`
 }
 
 // terminal kinds end the client connection.
 func terminal(kind string) bool {
 	switch kind {
 	case "ok", "status", "chunked", "auth407", "deny403", "refused", "reset-head", "timeout", "viaup", "connect-reject", "f12-plain",
-		"connect-dialfail", "connect-denied", "connect-auth407":
+		"connect-dialfail", "connect-denied", "connect-auth407",
+		"tt-plain", "tt-via", "tt-refused", "up-fault", "up-reject", "up-badtls", "sk-fault", "sk-tt", "https-plain", "https-badcert":
 		return false
 	}
 	return true
@@ -117,14 +127,22 @@ type world struct {
 	arrived                           sync.Map // id -> chan struct{}: the request with that Case-Id reached a peer
 	released                          sync.Map // id -> chan struct{}: the client is done, the peer may answer
 	idSeq                             atomic.Int64
+
+	// peers of the dial-then-fail exchanges (dialfail.go)
+	plain, badcert, tlsecho, tlsup, socks *rig.Peer
+	watch                                 atomic.Pointer[watchStats]
 }
 
-func (w *world) peers() []*rig.Peer { return []*rig.Peer{w.origin, w.tlsOrigin, w.echo, w.up, w.slow} }
+func (w *world) peers() []*rig.Peer {
+	return []*rig.Peer{w.origin, w.tlsOrigin, w.echo, w.up, w.slow, w.plain, w.badcert, w.tlsecho, w.tlsup, w.socks}
+}
 
 func (w *world) accepts() int64 {
 	var n int64
 	for _, p := range w.peers() {
-		n += p.Accepts()
+		if p != nil {
+			n += p.Accepts()
+		}
 	}
 	return n
 }
@@ -304,8 +322,12 @@ func (w *world) upRespond(pc *rig.PeerConn, ex *rig.Exchange) bool {
 	req := ex.Req
 	if req.Method == "CONNECT" {
 		host := req.Target
-		if strings.HasPrefix(host, "reject") {
-			digits := strings.TrimPrefix(host, "reject")
+		base := upBase(host)
+		if w.upFault(pc, base) {
+			return false
+		}
+		if strings.HasPrefix(base, "reject") {
+			digits := strings.TrimPrefix(base, "reject")
 			if len(digits) >= 3 {
 				digits = digits[:3]
 			}
@@ -377,44 +399,45 @@ func newWorld(ctx *core.Ctx, n int) (*world, error) {
 	if w.refused, w.release, err = rig.RefusedAddr(); err != nil {
 		return nil, err
 	}
+	if err = w.newDialPeers(); err != nil {
+		return nil, err
+	}
 	w.caFile, err = w.ca.WriteFile(ctx.Root+"/.work", fmt.Sprintf("c13-ca-%d-%d.pem", time.Now().UnixNano(), n))
 	return w, err
 }
 
-func viaUpstream(host string) bool {
-	return strings.HasPrefix(host, "reject") || strings.HasPrefix(host, "via")
-}
-
 func mitmHost(host string) bool { return host == "mitm.test" || strings.HasSuffix(host, "-mitm.test") }
 
-// dialCount counts what the proxy's dial function returned (the transport and martian's CONNECT
-// path share it), so that the dialer metrics can be compared with the dials that really happened.
-type dialCount struct{ ok, failed atomic.Int64 }
-
-func (w *world) startProxy(reg *prometheus.Registry, handler bool, dc *dialCount) (*rig.Proxy, error) {
+func (w *world) startProxy(reg *prometheus.Registry, handler, insecure bool, dc *dialCount) (*rig.Proxy, error) {
+	var dial func(ctx context.Context, network, addr string) (net.Conn, error)
 	return rig.StartProxy(rig.ProxyOpts{
 		PostTransport: func(rt *http.Transport) {
 			inner := rt.DialContext
-			rt.DialContext = func(ctx context.Context, network, addr string) (net.Conn, error) {
+			dial = func(ctx context.Context, network, addr string) (net.Conn, error) {
 				c, err := inner(ctx, network, addr)
-				if err != nil {
-					dc.failed.Add(1)
-				} else {
-					dc.ok.Add(1)
-				}
+				dc.note(addr, err)
 				return c, err
 			}
+			rt.DialContext = dial
+			// the header function of the CONNECT to an upstream proxy fails for targets named …hdr…
+			rt.GetProxyConnectHeader = func(_ context.Context, _ *url.URL, target string) (http.Header, error) {
+				if strings.HasPrefix(upBase(target), "hdr") {
+					return nil, errors.New("no credentials for this upstream proxy")
+				}
+				return nil, nil
+			}
 		},
-		ConnectTo: []forwarder.HostPortPair{
+		ConnectTo: append(w.dialRoutes(), []forwarder.HostPortPair{
 			rig.Route("origin.test", "80", w.origin.Addr),
 			rig.Route("slow.test", "80", w.slow.Addr),
 			rig.Route("mitm.test", "443", w.tlsOrigin.Addr),
 			rig.Route("tunnel.test", "443", w.echo.Addr),
 			rig.Route("upstream.test", "3128", w.up.Addr),
 			rig.Route("refused.test", "", w.refused),
-		},
+		}...),
 		Transport: func(tc *forwarder.HTTPTransportConfig) {
 			tc.CACertFiles = []string{w.caFile}
+			tc.TLSClientConfig.Insecure = insecure
 			tc.PromRegistry = reg
 			tc.PromNamespace = promNS
 			tc.ResponseHeaderTimeout = headerTimeout
@@ -426,8 +449,9 @@ func (w *world) startProxy(reg *prometheus.Registry, handler bool, dc *dialCount
 			cfg.TrackTraffic = true
 			cfg.BasicAuth = url.UserPassword(authUser, authPass)
 			cfg.DenyDomains = forwarder.MatchFunc(func(h string) bool { return h == "denied.test" })
-			cfg.UpstreamProxy = rig.MustURL("http://upstream.test:3128")
-			cfg.DirectDomains = forwarder.MatchFunc(func(h string) bool { return !viaUpstream(h) })
+			cfg.UpstreamProxyFunc = func(req *http.Request) (*url.URL, error) { return upstreamFor(req.URL.Hostname()), nil }
+			cfg.ConnectTimeout = connectTimeout
+			cfg.ConnectFunc = connectFunc(func() func(ctx context.Context, network, addr string) (net.Conn, error) { return dial })
 			if handler {
 				cfg.TestingHTTPHandler = true
 			} else {
@@ -574,8 +598,10 @@ type roundRun struct {
 	tag      string
 	dials    atomic.Int64
 	dialErrs atomic.Int64 // dials the proxy is expected to fail (refused targets)
+	insecure bool
 	mu       sync.Mutex
 	results  []xres
+	plans    []*dialPlan // what the CONNECT exits of the round are expected to make the dialer do
 }
 
 func (rr *roundRun) add(r xres) {
@@ -757,6 +783,9 @@ func (rr *roundRun) trustPool() *x509.CertPool {
 
 // runExchange runs one exchange on cl; it reports whether the connection can carry another one.
 func (rr *roundRun) runExchange(cl *cli, x *xspec) (alive bool) {
+	if dialKinds[x.Kind] {
+		return rr.dialExchange(cl, x)
+	}
 	switch x.Kind {
 	case "ok", "status", "chunked", "auth407", "deny403", "loop400", "refused", "reset-head", "reset-body", "timeout", "viaup":
 		return rr.simple(cl, x)
@@ -765,6 +794,8 @@ func (rr *roundRun) runExchange(cl *cli, x *xspec) (alive bool) {
 		hp := "tunnel.test:443"
 		if x.Kind == "connect-viaok" {
 			hp = "viaok.test:443"
+		} else {
+			rr.addPlan(planFor(x, rr.insecure))
 		}
 		m, err := rr.connect(cl, hp, true)
 		if m == nil || m.Status == 0 {
@@ -788,6 +819,7 @@ func (rr *roundRun) runExchange(cl *cli, x *xspec) (alive bool) {
 		switch x.Kind {
 		case "connect-dialfail":
 			rr.dialErrs.Add(1)
+			rr.addPlan(planFor(x, rr.insecure))
 		case "connect-denied":
 			hp, kind = "denied.test:443", "connectRefused"
 		case "connect-auth407":
@@ -1091,6 +1123,14 @@ type roundReport struct {
 	DialFailed int       `json:"proxy_dials_failed"`
 	Settled    bool      `json:"settled"`
 	WaitedMS   int       `json:"waited_ms"`
+
+	// the dial-then-fail accounting (dialfail.go)
+	Plans      []*dialPlan      `json:"connect_exits,omitempty"`
+	DialModel  *dialExpectation `json:"model_dials,omitempty"`
+	DialOKBy   map[string]int   `json:"proxy_dials_ok_by_name,omitempty"`
+	DialFailBy map[string]int   `json:"proxy_dials_failed_by_name,omitempty"`
+	PeersBegun int              `json:"watching_peers_connections"`
+	PeersEnded int              `json:"watching_peers_saw_the_end"`
 }
 
 // runRound runs the round on a fresh proxy and checks the registry at the quiescent point.
@@ -1114,17 +1154,20 @@ func runRound(ctx *core.Ctx, w *world, rc *roundCase) {
 	}
 	ctx.Count(fmt.Sprintf("connections/%d", len(rc.Conns)))
 	ctx.Count(fmt.Sprintf("server/handler=%v", rc.Handler))
+	ctx.Count(fmt.Sprintf("tls-client/insecure=%v", rc.Insecure))
 	ctx.Case(string(key), nontrivial || len(rc.Conns) > 1)
 
 	reg := prometheus.NewRegistry()
 	dc := &dialCount{}
-	proxy, err := w.startProxy(reg, rc.Handler, dc)
+	ws := &watchStats{}
+	w.watch.Store(ws)
+	proxy, err := w.startProxy(reg, rc.Handler, rc.Insecure, dc)
 	if err != nil {
 		ctx.Crash("proxy starts with a valid configuration", "", rc, err.Error())
 		return
 	}
 	defer proxy.Stop()
-	rr := &roundRun{w: w, proxy: proxy}
+	rr := &roundRun{w: w, proxy: proxy, insecure: rc.Insecure}
 	accBefore := w.accepts()
 	if needsTag(rc) {
 		if err := rr.learnTag(); err != nil {
@@ -1176,6 +1219,16 @@ func runRound(ctx *core.Ctx, w *world, rc *roundCase) {
 	// wait for the quiescent point: the registry has reached what the model says and the
 	// connection gauges are back; bounded
 	rep := &roundReport{Results: rr.results, Expected: ans, Dials: int(rr.dials.Load()), DialErrs: int(rr.dialErrs.Load())}
+	// the model's dial events of the CONNECT exits that were taken
+	for _, p := range rr.plans {
+		if p.Model == "" {
+			ctx.Count("dial-below-the-transport/" + p.Kind)
+		} else {
+			ctx.Count("connect-exit/" + p.Model)
+		}
+	}
+	dexp := expectDials(ctx, rr.plans)
+	rep.Plans, rep.DialModel = rr.plans, dexp
 	start := time.Now()
 	var snap *snapshot
 	minGauge := 0
@@ -1191,8 +1244,10 @@ func runRound(ctx *core.Ctx, w *world, rc *roundCase) {
 		}
 		rep.PeerAcc = int(w.accepts() - accBefore)
 		rep.DialOK, rep.DialFailed = int(dc.ok.Load()), int(dc.failed.Load())
+		rep.PeersBegun, rep.PeersEnded = int(ws.begun.Load()), int(ws.ended.Load())
 		if countersMatch(snap, mInfl, mTot) && snap.LActive == 0 && snap.DActive == 0 && snap.LAccepted == rep.Dials &&
-			snap.DDialed == rep.DialOK && snap.DErrors == rep.DialFailed && rep.DialOK <= rep.PeerAcc {
+			snap.DDialed == rep.DialOK && snap.DErrors == rep.DialFailed && rep.DialOK <= rep.PeerAcc &&
+			rep.PeersBegun == dexp.Watched && rep.PeersEnded == rep.PeersBegun {
 			okStreak++
 			if okStreak >= 3 {
 				rep.Settled = true
@@ -1209,7 +1264,8 @@ func runRound(ctx *core.Ctx, w *world, rc *roundCase) {
 	snap.MinGauge = minGauge
 	rep.Observed = snap
 	rep.WaitedMS = int(time.Since(start).Milliseconds())
-	cs := map[string]any{"kind": "round", "handler": rc.Handler, "conns": rc.Conns, "report": rep}
+	rep.DialOKBy, rep.DialFailBy = dc.byName()
+	cs := map[string]any{"kind": "round", "handler": rc.Handler, "insecure": rc.Insecure, "conns": rc.Conns, "report": rep}
 	impl := fmt.Sprintf("inflight=%s total=%s listener=%d/%d dialer=%d/%d errors=%d", encInflight(snap.Inflight), encTotal(snap.Total),
 		snap.LAccepted, snap.LActive, snap.DDialed, snap.DActive, snap.DErrors)
 
@@ -1252,6 +1308,30 @@ func runRound(ctx *core.Ctx, w *world, rc *roundCase) {
 		ctx.SpecFail("every dialled connection is counted once, every failed dial as an error", "", cs, impl,
 			fmt.Sprintf("dialer_cx_total=%d, dials that succeeded %d (peers accepted %d); dialer_errors_total=%d, dials that failed %d (dials to the refusing port %d)",
 				snap.DDialed, rep.DialOK, rep.PeerAcc, snap.DErrors, rep.DialFailed, rep.DialErrs))
+	}
+	// the dialled connections of the CONNECT path: what the dial function was asked for is what the model's
+	// exits dial, per target …
+	if d := dialMismatch(dexp, rep.DialOKBy, rep.DialFailBy); d != "" {
+		ctx.Disagree("dials per target of the round's CONNECT exchanges = the model's `opened` / failed-dial events of these exits", cs, d, fmt.Sprintf("%+v", *dexp))
+	} else if len(rr.plans) > 0 {
+		ctx.TraceValidated()
+	}
+	if len(dexp.Leaks) > 0 {
+		core.Fatalf("C13: the model leaves the dialer gauge up after %v in the code's order", dexp.Leaks)
+	}
+	// … every one of them counted as closed (model form of the clause: active = dialled - closed, all closed) …
+	if dv := ctx.Model.MustAsk("C13", "holdsconns", strconv.Itoa(snap.DDialed), strconv.Itoa(rep.DialOK), strconv.Itoa(snap.DActive)); dv != "true" {
+		ctx.SpecFail("every dialled connection is counted as closed exactly once when the exchange that dialled it is over, however it ended: dialer_cx_active = dialled - closed = 0", "", cs, impl,
+			fmt.Sprintf("%s; CONNECT exits of the round: %s", dv, planList(rr.plans)))
+	}
+	// … and really closed: the peer that waits for the proxy's end of the connection has seen it
+	switch {
+	case rep.PeersEnded < rep.PeersBegun:
+		ctx.SpecFail("the peer of every dialled connection sees the proxy's end of it (FIN or reset) once the exchange is over: no dialled connection is left open", "", cs, impl,
+			fmt.Sprintf("%d connections reached peers that wait for the proxy to close, %d of them were closed %d ms after the last exchange; CONNECT exits of the round: %s",
+				rep.PeersBegun, rep.PeersEnded, rep.WaitedMS, planList(rr.plans)))
+	case rep.PeersBegun != dexp.Watched:
+		ctx.Disagree("connections reaching the watching peers = the dials the round's exchanges are scripted to make", cs, strconv.Itoa(rep.PeersBegun), strconv.Itoa(dexp.Watched))
 	}
 	// model side of the connection clause
 	hv := ctx.Model.MustAsk("C13", "holdsconns", strconv.Itoa(snap.LAccepted), strconv.Itoa(rep.Dials), strconv.Itoa(snap.LActive))
